@@ -57,10 +57,49 @@ ATOMS = [
 ]
 CORE = [ATOMS[0], ATOMS[2], ATOMS[5], ATOMS[8], ATOMS[10], ATOMS[18]]
 
+# ---- NULL-safe comparisons: EQUAL_NULL(a, b), a IS DISTINCT FROM b, a IS NOT DISTINCT FROM b -------------------------------
+# every form x every operand pair in BOTH argument orders (column/column, column/constant, column/NULL, NULL/NULL, over an
+# integer and a text column). They are two-valued, so an implementation that answers NULL for one NULL operand is only
+# seen where FALSE and NULL differ: under NOT, inside AND/OR under NOT, or when the value is stored (NS_CONTEXTS).
+_K, _N, _V = ("col", "k"), ("col", "n"), ("col", "v")
+NS_PAIRS = [
+    (_K, _N),
+    (_K, ("const", 1)),
+    (_K, ("const", None)),
+    (_N, ("const", 10)),
+    (_V, ("const", "a")),
+    (_V, ("const", None)),
+]
+NS_PAIRS = [pair for a, b in NS_PAIRS for pair in ((a, b), (b, a))] + [(_K, _K), (("const", None), ("const", None))]
+NS_FORMS = ["equal_null", "isdistinct", "isnotdistinct"]
+NS_ATOMS = [(f, a, b) for f in NS_FORMS for a, b in NS_PAIRS]
+_G = ("cmp", "k", ">=", 2)  # an ordinary atom that is unknown for the rows with k NULL
+NS_CONTEXTS = [
+    lambda a: a,
+    lambda a: ("not", a),
+    lambda a: ("and", a, _G),
+    lambda a: ("or", a, _G),
+    lambda a: ("not", ("and", a, _G)),
+    lambda a: ("not", ("or", a, _G)),
+]
+# members of the depth-1 alphabet (every initial row set x DELETE and every SET list)
+NS_DEPTH1 = [
+    ("equal_null", _K, _N),
+    ("equal_null", _N, _K),
+    ("equal_null", ("const", None), _K),
+    ("isdistinct", _N, _K),
+    ("isnotdistinct", _V, ("const", "a")),
+    ("isdistinct", ("const", None), _V),
+]
+ATOMS += NS_DEPTH1
+# atoms of the second exhaustive grammar (depth 3): one NULL-safe form each way round + an ordinary three-valued atom
+G2_ATOMS = [("equal_null", _K, _N), ("isdistinct", _N, _K), _G, ("isnotdistinct", ("const", None), _K), ("equal_null", _V, ("const", "a"))]
+
 
 def predicates(tier):
     ps = [None] + ATOMS
     ps += [("not", a) for a in (CORE if tier != "quick" else CORE[:3])]
+    ps += [("not", a) for a in NS_DEPTH1]
     pairs = list(itertools.combinations(CORE, 2)) if tier != "quick" else list(itertools.combinations(CORE[:4], 2))
     for a, b in pairs:
         ps.append(("and", a, b))
@@ -101,6 +140,9 @@ def shape(p_):
         return f"not({shape(p_[1])})"
     if t in ("and", "or"):
         return f"{t}({shape(p_[1])},{shape(p_[2])})"
+    if t in NS_FORMS:
+        kind = lambda o: "col" if o[0] == "col" else ("null" if o[1] is None else "const")  # noqa: E731
+        return f"{t}({kind(p_[1])},{kind(p_[2])})"
     return t if t != "cmp" or p_[3] is not None else "cmp_null"
 
 
@@ -110,6 +152,10 @@ def _cols_of(p_):
         return _cols_of(p_[1])
     if t in ("and", "or"):
         return _cols_of(p_[1]) + _cols_of(p_[2])
+    if t in NS_FORMS:
+        return [o[1] for o in p_[1:3] if o[0] == "col"]
+    if t in ("true", "false"):
+        return []
     return [p_[1]]
 
 
@@ -152,6 +198,8 @@ def statements(tier):
         ("insert_values_select", ((7, "q", 70), (8, "r", 80), (9, "s", 90)), "limit", 2),
         ("insert_from_t_in_values", (1, 3, 99)),
     ]
+    # INSERT ... SELECT that stores the VALUE of a predicate (1 / 0 / NULL): three-valued logic seen without a WHERE
+    st += [("insert_select_value", a) for a in ATOMS if a[0] not in ("true", "false")]
     preds = predicates(tier)
     sets = SETS if tier != "quick" else SETS[:3]
     for p in preds:
@@ -204,6 +252,8 @@ def stmt_sql(s):
     if k == "insert_from_t_in_values":
         vals = ", ".join(f"({c})" for c in s[1])
         return f"INSERT INTO t SELECT k, v, n FROM t WHERE k IN (SELECT column1 FROM (VALUES {vals}))"
+    if k == "insert_select_value":
+        return f"INSERT INTO t SELECT k, v, ({R.sql(s[1])})::INT FROM t"
     if k == "update":
         w = f" WHERE {R.sql(s[2])}" if s[2] is not None else ""
         return f"UPDATE t SET {R.set_sql(s[1])}{w}"
@@ -244,6 +294,10 @@ def model_step(rows, s):
     if k == "insert_from_t_in_values":
         picked = [r for r in rows if r[0] is not None and r[0] in s[1]]
         return rows + picked, len(picked), ["number of rows inserted"]
+    if k == "insert_select_value":
+        # a BOOLEAN cast to a number is 1 for TRUE, 0 for FALSE, NULL for NULL
+        picked = [(r[0], r[1], {True: 1, False: 0, None: None}[R.ev(s[1], r)]) for r in rows]
+        return rows + picked, len(picked), ["number of rows inserted"]
     if k == "update":
         new, n = R.update(rows, s[1], s[2])
         return new, n, ["number of rows updated", "number of multi-joined rows updated"]
@@ -266,6 +320,8 @@ def classify(s, affected):
         return f"cmd=INSERT,form=select_from_values_{s[2]},affected={z}"
     if k == "insert_from_t_in_values":
         return f"cmd=INSERT,form=select_t_in_values,affected={z}"
+    if k == "insert_select_value":
+        return f"cmd=INSERT,form=select_t_predicate_value,pred={shape(s[1])},affected={z}"
     if k == "update":
         return f"cmd=UPDATE,affected={z}"
     if k == "delete":
@@ -325,6 +381,30 @@ def run_case(rows, s):
     return got, after_rows, before == _others(raw)
 
 
+def judge_answer(acc, cls, rp, s, got, exp_n, exp_names):
+    """the statement's own answer: no exception, status row, status column names, rowcount"""
+    if got[0] != "ok":
+        acc.violation("C04.no_exception", cls + f",exc={got[1]}", {"got": got, "sql": stmt_sql(s)}, rp)
+        return
+    _, status, names, rc = got
+    if exp_names is None:
+        return
+    if names is not None and names != exp_names:
+        acc.violation("C04.status_columns", cls, {"expected": exp_names, "got": names}, rp)
+    ok = (
+        len(status) == 1
+        and len(status[0]) == len(exp_names)
+        and status[0][0] == exp_n
+        and isinstance(status[0][0], int)
+        and all(x == 0 for x in status[0][1:])
+    )
+    if not ok:
+        acc.violation("C04.status_row", cls, {"expected": exp_n, "got": status, "sql": stmt_sql(s)}, rp)
+    acc.member("C04.rowcount", cls, rc != exp_n)
+    if rc != exp_n:
+        acc.violation("C04.rowcount", cls, {"expected": exp_n, "got": rc, "sql": stmt_sql(s)}, rp)
+
+
 def step(item, acc: core.Acc, tier, cls_extra=""):
     rows, s = item
     exp_rows, exp_n, exp_names = model_step(rows, s)
@@ -339,27 +419,7 @@ def step(item, acc: core.Acc, tier, cls_extra=""):
         acc.sample({"before": rows, "sql": stmt_sql(s), "expected_count": exp_n, "observed": got, "after": after_rows}, cap=2)
     cls = classify(s, exp_n) + cls_extra
     rp = {"rows": rows, "stmt": s, "sql": stmt_sql(s)}
-    fail = set()
-    if got[0] != "ok":
-        acc.violation("C04.no_exception", cls + f",exc={got[1]}", {"got": got, "sql": stmt_sql(s)}, rp)
-        fail.add("exc")
-    else:
-        _, status, names, rc = got
-        if exp_names is not None:
-            if names is not None and names != exp_names:
-                acc.violation("C04.status_columns", cls, {"expected": exp_names, "got": names}, rp)
-            ok = (
-                len(status) == 1
-                and len(status[0]) == len(exp_names)
-                and status[0][0] == exp_n
-                and isinstance(status[0][0], int)
-                and all(x == 0 for x in status[0][1:])
-            )
-            if not ok:
-                acc.violation("C04.status_row", cls, {"expected": exp_n, "got": status, "sql": stmt_sql(s)}, rp)
-            acc.member("C04.rowcount", cls, rc != exp_n)
-            if rc != exp_n:
-                acc.violation("C04.rowcount", cls, {"expected": exp_n, "got": rc, "sql": stmt_sql(s)}, rp)
+    judge_answer(acc, cls, rp, s, got, exp_n, exp_names)
     if after_rows != _msort(exp_rows):
         acc.violation(
             "C04.target_rows", cls, {"expected": _msort(exp_rows), "got": after_rows, "sql": stmt_sql(s), "before": rows}, rp
@@ -410,6 +470,197 @@ def script_case(item, acc: core.Acc, tier):
             acc.violation("C04.script_cursors", cls + f",rowcount_of_statement_{i + 1}_of_{len(stmts)}", {"sql": text, "expected": n, "got": rc}, rp)
     if after_rows != _msort(cur_rows):
         acc.violation("C04.target_rows", cls + ",script", {"sql": text, "expected": _msort(cur_rows), "got": after_rows}, rp)
+
+
+# ---- used sessions: the DML under judgement is not the first thing the session did ---------------------------------------
+# A history is  [one earlier statement of the session]  +  DML statements on T, in a fresh instance with three connections
+# made beforehand: the writer, an independent observer session, and a raw DuckDB cursor (ground truth). The earlier statement
+# is drawn from the product  route (how fakesnow carries the statement out: one engine statement, several engine statements
+# = CREATE TABLE with text lengths / comment, CTAS with comment, CLONE, RENAME, MERGE; or refused before the engine)
+# x cause of failure (missing object, existing object, run-time conversion error, constraint error, a column option the
+# engine's parser refuses), plus successful statements of each route and "nothing" as controls.
+# NOT judged: the earlier statement's own outcome (several of them are valid Snowflake that fakesnow cannot run; whether
+# it fails is not C04's subject). Judged: it leaves T alone (none of them may change T, failed or not), and the DML
+# that follows behaves exactly as in a new session: same answer, same contents of T *as seen by everybody* - DML outside
+# a user transaction is committed when it returns (autocommit), so the observer session and the raw cursor see it at once,
+# and a later ROLLBACK (a no-op without BEGIN) or the closing of the writer's connection does not take it back.
+USED = [
+    # (route, cause, statement)
+    ("none", "-", None),
+    ("single_step_select", "ok", "select * from src"),
+    ("single_step_insert", "ok", "insert into b values (5, 'five', 5)"),
+    ("multi_step_create_text_length", "ok", "create table u (id int, name varchar(10))"),
+    ("multi_step_create_comment", "ok", "create table u (id int) comment = 'c'"),
+    ("multi_step_clone", "ok", "create table u clone src"),
+    ("multi_step_rename_table", "ok", "alter table b rename to b2"),
+    ("multi_step_rename_column", "ok", "alter table nn rename column k to z"),
+    ("multi_step_merge", "ok", "merge into b using src on b.k = src.k when not matched then insert (k, v, n) values (src.k, src.v, src.n)"),
+    ("refused_before_engine", "syntax", "selec 1"),
+    ("refused_before_engine", "syntax", "select ("),
+    ("single_step_select", "missing_object", "select * from nope"),
+    ("single_step_select", "conversion", "select 'x'::int"),
+    ("single_step_insert", "missing_object", "insert into nope values (1)"),
+    ("single_step_insert", "conversion", "insert into b values ('x', 'y', 'z')"),
+    ("single_step_insert", "constraint", "insert into nn values (NULL)"),
+    ("single_step_insert_target", "conversion", "insert into t values (7, 'q', 70), ('x', 'y', 'z')"),
+    ("single_step_update", "conversion", "update b set k = 'x'::int"),
+    ("single_step_update", "constraint", "update nn set k = NULL"),
+    ("single_step_delete", "missing_object", "delete from nope"),
+    ("single_step_create", "existing_object", "create table b (a int)"),
+    ("single_step_create", "engine_parser", "create table u (id int autoincrement)"),
+    ("single_step_drop", "missing_object", "drop table nope"),
+    ("single_step_alter", "missing_object", "alter table nope add column z int"),
+    ("single_step_alter", "existing_object", "alter table b add column k int"),
+    ("multi_step_create_text_length", "existing_object", "create table b (name varchar(10))"),
+    ("multi_step_create_text_length", "missing_object", "create table nosch.u (name varchar(10))"),
+    ("multi_step_create_text_length", "existing_column", "create table u (id int, id int, name varchar(10))"),
+    ("multi_step_create_text_length", "engine_parser", "create table u (id int autoincrement, name varchar(10))"),
+    ("multi_step_create_text_length", "engine_parser", "create table u (id int identity(1,1), name varchar(10))"),
+    ("multi_step_create_text_length", "engine_parser", "create table u (id int, name varchar(10) collate 'en-ci')"),
+    ("multi_step_create_text_length", "engine_parser", "create table u (id int, name varchar(10) masking policy mp)"),
+    ("multi_step_create_text_length", "engine_parser", "create table u (id int, name varchar(10), primary key (nope))"),
+    ("multi_step_create_comment", "existing_object", "create table b (a int) comment = 'c'"),
+    ("multi_step_create_comment", "engine_parser", "create table u (id int autoincrement) comment = 'c'"),
+    ("multi_step_ctas_comment", "missing_object", "create table u comment = 'c' as select * from nope"),
+    ("multi_step_ctas_comment", "conversion", "create table u comment = 'c' as select 'x'::int as a"),
+    ("multi_step_clone", "missing_object", "create table u clone nope"),
+    ("multi_step_clone", "existing_object", "create table b clone src"),
+    ("multi_step_rename_table", "missing_object", "alter table nope rename to u"),
+    ("multi_step_rename_table", "existing_object", "alter table b rename to src"),
+    ("multi_step_rename_column", "missing_object", "alter table b rename column nope to z"),
+    ("multi_step_rename_column", "existing_object", "alter table b rename column k to v"),
+    ("multi_step_merge", "missing_object", "merge into nope using src on nope.k = src.k when matched then delete"),
+    ("multi_step_merge", "missing_object", "merge into b using nope on b.k = nope.k when matched then delete"),
+    ("multi_step_merge", "missing_column", "merge into b using src on b.k = src.k when matched then update set nope = 1"),
+    ("multi_step_merge", "conversion", "merge into b using src on b.k = src.k when not matched then insert (k) values ('y'::int)"),
+    ("multi_step_merge", "constraint", "merge into nn using src on nn.k = src.k when not matched then insert (k) values (NULL)"),
+    ("multi_step_merge_target", "conversion", "merge into t using src on t.k = src.k when not matched then insert (k) values ('y'::int)"),
+]
+VIAS = ["execute", "execute_string"]
+S_ROWS = tuple(sorted((UNIVERSE[i] for i in (0, 1, 2, 3, 4)), key=repr))
+
+
+def _vals(rows):
+    return ", ".join("(" + ", ".join(R.lit(c) for c in r) + ")" for r in rows)
+
+
+def _run_on(cur, sql):
+    try:
+        cur.execute(sql)
+        status = cur.fetchall()
+        try:
+            names = [d.name for d in cur.description]
+        except Exception:  # noqa: BLE001
+            names = None
+        return ("ok", status, names, cur.rowcount)
+    except Exception as e:  # noqa: BLE001
+        return ("err", type(e).__name__, str(e)[:120])
+
+
+def _view(conn_or_raw, qualified=False):
+    """rows of T through a new cursor of a fakesnow connection, or through the raw cursor"""
+    try:
+        if qualified:
+            return _msort(conn_or_raw.execute("select * from db1.s1.t").fetchall())
+        c = conn_or_raw.cursor()
+        c.execute("select k, v, n from t")
+        return _msort(c.fetchall())
+    except Exception as e:  # noqa: BLE001
+        return ("err", type(e).__name__, str(e)[:120])
+
+
+def _others_dyn(raw):
+    """every table of the instance except T (the earlier statement may have created/renamed bystanders): definition + rows"""
+    tabs = raw.execute("select database_name, schema_name, table_name, sql from duckdb_tables() where not internal order by all").fetchall()
+    out = []
+    for d, sc, t, ddl in tabs:
+        if (d, sc, t) == ("DB1", "S1", "T"):
+            out.append((d, sc, t, ddl, None))
+        else:
+            out.append((d, sc, t, ddl, tuple(raw.execute(f'select * from "{d}"."{sc}"."{t}" order by all').fetchall())))
+    return tuple(out)
+
+
+def session_case(item, acc: core.Acc, tier):
+    from mc.util import fresh
+
+    ui, via, rows, stmts = item
+    route, cause, pre = USED[ui]
+    after = f",after={route}:{cause}" + ("" if via == "execute" else f",via={via}")
+    rp = {"used": ui, "via": via, "rows": rows, "session_stmts": stmts, "earlier": pre, "sql": [stmt_sql(x) for x in stmts]}
+    log = []
+    with fresh(connect=False) as (fs, _none):
+        adm = fs.connect(database="db1", schema="s1")
+        cur = adm.cursor()
+        for name, rws in (("src", SRC), ("b", BYST)):
+            cur.execute(f"create table {name} (k int, v varchar, n int)")
+            cur.execute(f"insert into {name} values {_vals(rws)}")
+        cur.execute("create table nn (k int not null)")
+        cur.execute("insert into nn values (5)")
+        cur.execute("create table t (k int, v varchar, n int)")
+        raw = observe.raw(fs)
+        if rows:
+            raw.execute(f"insert into db1.s1.t values {_vals(rows)}")
+        writer = fs.connect(database="db1", schema="s1")
+        observer = fs.connect(database="db1", schema="s1")
+        wcur = writer.cursor()
+        pre_out = None
+        if pre is not None:
+            try:
+                if via == "execute":
+                    wcur.execute(pre)
+                    wcur.fetchall()
+                else:
+                    for c in writer.execute_string(pre + ";"):
+                        c.fetchall()
+                pre_out = ("ok",)
+            except Exception as e:  # noqa: BLE001
+                pre_out = ("err", type(e).__name__)
+        acc.outcome(("earlier", route, cause, pre_out))
+        log.append(pre_out)
+        t0 = _view(raw, qualified=True)
+        if t0 != _msort(rows):
+            acc.violation("C04.earlier_statement_leaves_target", f"earlier={route}:{cause}", {"earlier": pre, "outcome": pre_out, "expected": _msort(rows), "got": t0}, rp)
+        cur_rows = list(rows)
+        cls = "?"
+        for s in stmts:
+            cur_rows, exp_n, exp_names = model_step(cur_rows, s)
+            want = _msort(cur_rows)
+            before = _others_dyn(raw)
+            got = _run_on(wcur, stmt_sql(s))
+            views = {"writer": _view(writer), "other_session": _view(observer), "ground_truth": _view(raw, qualified=True)}
+            same = before == _others_dyn(raw)
+            acc.count("evaluations")
+            acc.count("transitions")
+            log.append((got, views, same))
+            if exp_n and pre is not None:
+                acc.nontrivial(("used", ui, via, rows, s))
+            cls = classify(s, exp_n) + after
+            judge_answer(acc, cls, rp, s, got, exp_n, exp_names)
+            for who, v in views.items():
+                if v != want:
+                    clause = "C04.target_rows" if who == "ground_truth" else f"C04.seen_by_{who}"
+                    acc.violation(clause, cls, {"earlier": pre, "earlier_outcome": pre_out, "sql": stmt_sql(s), "expected": want, "got": v}, rp)
+            if not same:
+                acc.violation("C04.touches_nothing_else", cls, {"sql": stmt_sql(s)}, rp)
+        # nothing of it is pending: a ROLLBACK of the writer (no transaction was begun) and closing it take nothing back
+        want = _msort(cur_rows)
+        for then in ("rollback", "close"):
+            try:
+                if then == "rollback":
+                    wcur.execute("ROLLBACK")
+                else:
+                    writer.close()
+                out = "ok"
+            except Exception as e:  # noqa: BLE001  (the answer of ROLLBACK/close is not C04's subject)
+                out = type(e).__name__
+            views = {"other_session": _view(observer), "ground_truth": _view(raw, qualified=True)}
+            log.append((then, out, views))
+            for who, v in views.items():
+                if v != want:
+                    acc.violation("C04.committed", cls + f",then={then}", {"earlier": pre, "seen_by": who, "expected": want, "got": v, "sql": [stmt_sql(x) for x in stmts]}, rp)
+    acc.count("traces")
+    acc.obs((ui, via, rows, stmts, log))
 
 
 # ---- DDL status messages (E2) -----------------------------------------------------------------------------------------
@@ -509,8 +760,36 @@ def run(ctx: core.Ctx):
     gitems = [(G_ROWS, ("delete", p_)) for p_ in gp] + [(G_ROWS, ("update", SETS[0], p_)) for p_ in gp]
     ctx.pmap(gstep, gitems, recheck=False)
     ctx.extra["predicate_grammar"] = {"depth": 3, "atoms": len(G_ATOMS[:4] if ctx.quick else G_ATOMS), "predicates": len(gp), "statements": len(gitems)}
+    # the same to depth 3 over NULL-safe comparison atoms mixed with an ordinary three-valued atom
+    g2 = grammar(3, G2_ATOMS[:3] if ctx.quick else G2_ATOMS)
+    g2items = [(G_ROWS, ("delete", p_)) for p_ in g2] + [(G_ROWS, ("update", SETS[0], p_)) for p_ in g2]
+    ctx.pmap(gstep, g2items, recheck=False)
+    # every NULL-safe form x operand pair (both argument orders) x context, as DELETE, as UPDATE and as a stored value
+    nsp = [c(a) for a in NS_ATOMS for c in NS_CONTEXTS]
+    nsitems = [(G_ROWS, ("delete", p_)) for p_ in nsp] + [(G_ROWS, ("update", SETS[0], p_)) for p_ in nsp]
+    nsitems += [(G_ROWS, ("insert_select_value", a)) for a in NS_ATOMS]
+    ctx.pmap(gstep, nsitems, recheck=False)
+    ctx.extra["null_safe_comparisons"] = {
+        "forms": NS_FORMS,
+        "operand_pairs": len(NS_PAIRS),
+        "contexts": len(NS_CONTEXTS),
+        "statements": len(nsitems),
+        "grammar_depth3_atoms": len(G2_ATOMS[:3] if ctx.quick else G2_ATOMS),
+        "grammar_depth3_statements": len(g2items),
+    }
     for s in seen:
         ctx.acc.add("states", s)
+    # used sessions: every earlier statement x every chained DML statement (quick), x both ways of submitting the earlier
+    # statement, pairs of DML statements and two more row sets (thorough)
+    sq = seq_statements()
+    uitems = [(ui, "execute", S_ROWS, (s,)) for ui in range(len(USED)) for s in sq]
+    uitems += [(ui, "execute_string", S_ROWS, (s,)) for ui in range(len(USED)) if USED[ui][2] for s in (sq[0], sq[3], sq[7])]
+    if not ctx.quick:
+        uitems += [(ui, "execute_string", S_ROWS, (s,)) for ui in range(len(USED)) if USED[ui][2] for s in sq if s not in (sq[0], sq[3], sq[7])]
+        uitems += [(ui, "execute", rs, (s,)) for ui in range(len(USED)) for rs in (init[0], init[1]) for s in sq]
+        uitems += [(ui, "execute", S_ROWS, (a, b)) for ui in range(len(USED)) for a in sq[:8] for b in sq[:8]]
+    ctx.pmap(session_case, uitems, recheck=False)
+    ctx.extra["used_sessions"] = {"earlier_statements": len(USED), "histories": len(uitems), "observers": ["writer", "other_session", "ground_truth"]}
     # scripts: all ordered pairs and triples of the chained statements from three row sets, through execute_string
     seqs = seq_statements()
     scripts = [(rs, [a, b]) for rs in init[:3] for a in seqs for b in seqs]
@@ -534,6 +813,18 @@ def replay(payload):
         acc = core.Acc()
         ddl_case(r["ddl"], acc, "quick")
         print(acc.viol or "ok")
+        return bool(acc.viol)
+    if "script" in r:
+        acc = core.Acc()
+        script_case((tup(r["rows"]), list(tup(r["script"]))), acc, "quick")
+        print(acc.viol or "ok")
+        return bool(acc.viol)
+    if "used" in r:
+        acc = core.Acc()
+        session_case((r["used"], r["via"], tup(r["rows"]), tup(r["session_stmts"])), acc, "quick")
+        print("earlier statement:", r["earlier"], "\nthen:", r["sql"], "\nbefore:", r["rows"])
+        for k, v in acc.viol.items():
+            print(k, v["detail"])
         return bool(acc.viol)
     rows, s = tup(r["rows"]), tup(r["stmt"])
     # predicates contain lists for IN; keep tuples – evaluator only iterates
